@@ -15,7 +15,25 @@ OutOfModel(r) == r.status \in {"fuel", "type"}
 
 (* a failing `get` / `assert` names the source position of that construct: right file, *)
 (* right line, column inside the construct (judged when the program has exactly one)   *)
-PosOk(x, ob) == x.n = 0 \/ (ob.posfile = "main.ms" /\ ob.posline = x.line /\ x.lo <= ob.poscol /\ ob.poscol <= x.hi)
+PosOk(x, ob) == x.n = 0 \/ (ob.posfile = x.file /\ ob.posline = x.line /\ x.lo <= ob.poscol /\ ob.poscol <= x.hi)
+
+(* C17: the reported call trace lists, innermost first, exactly the active functions and   *)
+(* methods down to the module.  Observed entries are [k, m, n] like the model's labels;     *)
+(* block markers (k = "B") and a native-code entry (k = "N") are extra detail, not functions. *)
+RECURSIVE Keep(_, _)
+Keep(tr, j) == IF j > Len(tr) THEN <<>>
+               ELSE (IF tr[j].k \in {"B", "N"} THEN <<>> ELSE <<tr[j]>>) \o Keep(tr, j + 1)
+RECURSIVE Reverse(_)
+Reverse(xs) == IF xs = <<>> THEN <<>> ELSE Append(Reverse(Tail(xs)), Head(xs))
+TraceOk(model, observed) ==
+    LET o == Keep(observed, 1)
+        m == Reverse(model) IN        \* model stack is innermost-last, the report innermost-first
+    /\ Len(o) = Len(m)
+    /\ \A a \in 1..Len(m) :
+          /\ o[a].k = m[a].k /\ o[a].m = m[a].m
+          /\ m[a].k = "C" => o[a].n = m[a].n
+          /\ \A b \in 1..Len(m) : (m[a].k = "F" /\ m[b].k = "F") =>
+                ((o[a].n = o[b].n /\ o[a].m = o[b].m) <=> (m[a].n = m[b].n /\ m[a].m = m[b].m))
 
 (* what the specification demands of one observed execution *)
 Agree(c, r, ob) ==
@@ -25,6 +43,7 @@ Agree(c, r, ob) ==
          /\ ob.fclass = r.status
          /\ r.status = "nil" => PosOk(c.expect.get, ob)
          /\ r.status = "assert" => PosOk(c.expect.assert, ob)
+         /\ c.judge_trace => (ob.banner /\ ob.exit = 1 /\ TraceOk(r.ftrace, ob.trace))
 
 (* properties of the specification itself, checked on every evaluated case *)
 SpecSane(r) ==
@@ -41,5 +60,6 @@ Judge ==
               PrintT("DISAGREE " \o ToJson([id |-> c.id, path |-> c.obs[k].path,
                       exp_status |-> r.status, exp_out |-> r.out, exp_trace |-> r.ftrace,
                       obs_exit |-> c.obs[k].exit, obs_out |-> c.obs[k].out, obs_fclass |-> c.obs[k].fclass,
-                      obs_pos |-> <<c.obs[k].posfile, c.obs[k].posline, c.obs[k].poscol>>, expect |-> c.expect]))
+                      obs_pos |-> <<c.obs[k].posfile, c.obs[k].posline, c.obs[k].poscol>>, expect |-> c.expect,
+                      obs_trace |-> c.obs[k].trace, obs_banner |-> c.obs[k].banner]))
 =============================================================================
